@@ -5,6 +5,8 @@ CONSTANTS
   MaxDepth = 3
   MaxN = 4
   ScratchSize = "code"
+  Finished = "last"
+  EarlyExit = TRUE
 INVARIANT CodesOk
 INVARIANT Refines
 INVARIANT LevelData
